@@ -112,6 +112,11 @@ namespace fastscapelib
                 graph_impl_snapshot.m_bfs_levels = graph_impl.m_bfs_levels;
                 graph_impl_snapshot.m_donors = graph_impl.m_donors;
 
+                // mask and base levels are inputs of basins(), pits() and kernels
+                graph_impl_snapshot.m_base_levels = graph_impl.m_base_levels;
+                graph_impl_snapshot.m_mask = graph_impl.m_mask;
+                graph_impl_snapshot.m_mask_initialized = graph_impl.m_mask_initialized;
+
                 if (graph_impl_snapshot.single_flow())
                 {
                     auto receivers_col = xt::col(graph_impl_snapshot.m_receivers, 0);
